@@ -89,6 +89,15 @@ Check (C01_encoder_file_lossless : forall o L si others blocks bytes,
   short_only_last si blocks ->
   (si_total si = 0 \/ blocks_samples blocks = si_total si) ->
   dec_stream (file_of si others bytes) = Some (si, map interleave_frame blocks, EndEof)).
+Check (C14_interrupted_file : forall si others fs allb g gb m,
+  si_ok si -> blocks_ok others ->
+  Forall (frame_ok si) fs -> frames_bytes fs = Some allb ->
+  frame_ok si g -> write_frame g = Some gb -> (m < length gb)%nat ->
+  (si_total si = 0 \/ total_samples fs + h_bs (f_hdr g) <= si_total si) ->
+  match dec_stream (file_of si others (allb ++ firstn m gb)) with
+  | Some (si', out, e) => si' = si /\ out = map (fun f => interleave_frame (sem_frame f)) fs /\ is_end_panic e = false
+  | None => False
+  end).
 (* block_ok is what it says *)
 Check (eq_refl : block_ok = fun si bps chans =>
   (1 <= length chans <= 8)%nat /\ 1 <= bps /\ bps <= 32 /\
